@@ -67,6 +67,15 @@ class RecTracer(Tracer):
     def __init__(self, idx, log):
         self.idx, self.log = idx, log
 
+    def __len__(self):
+        # a tracer that also is a (still empty) collection of what it recorded: falsy, and a tracer all the same
+        if self.idx % 2:
+            return 0
+        raise TypeError('not sized')
+
+    def __bool__(self):
+        return self.idx % 2 == 0
+
     def on_request_begin(self, trace_context, request):
         self.log.append(('begin', self.idx, trace_context))
 
@@ -99,6 +108,8 @@ def step_of(att, req_kind, k):
     if kind == 'garbage':
         return ('text', '{nope')
     if kind == 'badid':
+        if req_kind == 'batch':          # an array answering an id nobody asked for: the strict client refuses it (IdentityError)
+            return ('text', json.dumps([{'jsonrpc': '2.0', 'id': 999, 'result': k}]))
         return ('text', json.dumps({'jsonrpc': '2.0', 'id': 999, 'result': k}))
     if kind == 'invalid':
         return ('text', json.dumps({'jsonrpc': '2.0', 'id': 1}))
